@@ -273,6 +273,15 @@ type Session struct {
 	Panics interface{}
 }
 
+var worldMu sync.Mutex
+
+// ConnectLocked is Connect for free-running (truly concurrent) harness bodies.
+func (w *World) ConnectLocked(port int) *Session {
+	worldMu.Lock()
+	defer worldMu.Unlock()
+	return w.Connect(port)
+}
+
 // Connect opens a client connection on a port: new handlers with their own backend connections,
 // parser/responder of the configured protocol, and the server loop on its own goroutine.
 func (w *World) Connect(port int) *Session {
